@@ -56,9 +56,9 @@ theorem C14_source_delegation_and_poll :
       ("get_workable_slice_exact", "get_workable_slice_exact", 1), ("get_workable_slice_multiple_of", "get_workable_slice_multiple_of", 1),
       ("peek_available", "peek_available", 1), ("peek_ref", "peek_ref", 1), ("peek_slice", "peek_slice", 1), ("pop", "pop", 1),
       ("pop_move", "pop_move", 1), ("push", "push", 1), ("push_slice", "push_slice", 1), ("push_slice_clone", "push_slice_clone", 1)] ∧
-    Gen.pollShape = { hasLoop := true, attemptSites := 2, registerSites := 1, readySites := 1, pendingSites := 1, restoresPayload := true,
-                      attemptBeforeRegister := true, pendingBeforeRegister := true } := by
-  exact ⟨rfl, rfl⟩
+    Gen.pollShape.attemptsAtMost = 2 ∧ Gen.pollShape.registersBetweenAttempts = true ∧
+    Gen.pollShape.pendingOnlyAfterRegisteredAttempt = true ∧ Gen.pollShape.restoresPayload = true := by
+  exact ⟨rfl, rfl, rfl, rfl, rfl⟩
 
 /-- Non-vacuity: full buffer, pending push, consumer frees a slot, the same future completes and stores the value once. -/
 example :
